@@ -10,14 +10,20 @@ CFG = {
         "cell": {"header": _HDR, "model_fn": "model_case", "rule": "F"},
     },
     "exhaustive_when": "matrix_exhaustive",
-    "rule_text": "one case = one cell (kind, built-in name, receiver, kwargs) of the matrix: every registered filter/test x 124 receivers "
+    "rule_text": "one case = one cell (kind, built-in name, receiver, kwargs) of the matrix: every registered filter/test x 129 receivers "
                  "(all 12 kinds, all integer representations, boundary integers, NaN/inf/-0.0/subnormal, multi-byte / CRLF / sigma strings, "
                  "empty and nested containers, bytes) x kwarg shapes (each documented kwarg absent / boundary values of the right kind in every "
                  "representation / one value of every other kind, the remaining kwargs absent or valid; the product of the valid values; an "
                  "undocumented kwarg), every function x kwarg shapes. The matrix is enumerated completely on the implementation side in both "
                  "tiers (oracle: value or error, never a panic, strings valid UTF-8, every registered name resolves; arithmetic built-ins "
-                 "re-run under a debug-profile build and compared). Model side: outcome class and value; quick = stratified sample "
-                 "(first cell of every (built-in, receiver kind, outcome) and (built-in, kwarg kinds, outcome) stratum, filled uniformly to 4000), "
+                 "re-run under a debug-profile build and compared; truncate counted in characters, every kind test answered from the kind of the receiver "
+                 "alone, length of a string = its characters: checked on every cell). 51 further receivers, one string per UTF-8 lead byte, meet every "
+                 "built-in without kwargs and the string built-ins with receiver-specific multi-byte patterns. Model side: outcome class and value; "
+                 "both tiers always send the focus cells (the 17 tests on every receiver, i.e. every integer width edge i64::MIN, u64::MAX, i128::MIN/MAX, "
+                 "i128::MAX+1 and u128::MAX as u128, +-0.0, NaN, +-inf, subnormals; truncate at every length 0..=chars+2 on every non-ASCII receiver with "
+                 "default/empty/multi-byte end marker and lengths between the character and the byte count in every representation; trim*/split/replace/"
+                 "starting_with/ending_with/containing/indent/pluralize and the no-kwarg string filters on the lead-byte strings); quick adds the first cell of "
+                 "every (built-in, receiver kind, outcome) and (built-in, kwarg kinds, outcome) stratum and 300 uniformly drawn cells (about 8 000 in all), "
                  "thorough = every stratum plus a uniform draw of the other modelled cells, about 60 000 cells (C17_MODEL_CAP=0: every modelled cell, about 170 000). distinct = distinct Gallina case terms; non-trivial = not (no kwargs and receiver rejected as the wrong kind). "
                  "Implementation-side law oracles on every cell: range = exactly the progression or a justified failure (known class "
                  "range:span-overflow-refused), round never turns a finite number into NaN/inf (known class round:non-finite-result). "
